@@ -276,10 +276,29 @@ def run_active(sx, cfg, env):
     for j, L in enumerate(Ls):  # several telegrams in a row on the same id
         payload, frames = _segments(sx, f"p{j}" if len(Ls) > 1 else "p", L, cfg["fs"], cfg["pad"])
         got = []
+        fcs = 0  # flow-control frames sent for this transfer so far
         for i, fr in enumerate(frames):
+            if cfg.get("intruder_at") == i:
+                # a first frame on the OTHER id arrives in the middle of this transfer: it is
+                # answered on its own tx id and leaves this transfer's block bookkeeping alone
+                other = 1 - which
+                _, oframes = _segments(sx, "q", 20, cfg["fs"], cfg["pad"])
+                b0 = len(bus.sent)
+                list(dec.decode_rx_frame(IDS[other], oframes[0]))
+                onew = bus.sent[b0:]
+                sx.require(len(onew) == 1 and onew[0].arbitration_id == TX[other],
+                           "first-frame-on-another-id-is-answered-on-its-own-tx-id")
             before = len(bus.sent)
             got += list(dec.decode_rx_frame(IDS[which], fr))
             new = bus.sent[before:]
+            fcs += len(new)
+            if len(frames) > 257:
+                # block size 255: by the time 256 consecutive frames have been processed the
+                # second clear-to-send is out; not before the 255th
+                if i <= 254:
+                    sx.require(fcs == 1, "no-flow-control-inside-a-block")
+                if i == 256:
+                    sx.require(fcs >= 2, "next-block-is-cleared-after-255-consecutive-frames")
             is_first = len(frames) > 1 and i == 0
             if is_first:
                 sx.require(len(new) == 1, "one-flow-control-per-first-frame")
@@ -371,6 +390,9 @@ def configs(tier, seed):
     for L, fs, ps in act:
         out.append({"id": f"active/L{L}/ps{ps}", "harness": "active", "L": L, "fs": fs, "pad": True,
                     "padding_size": ps})
+    for at in ((100,) if tier == "quick" else (1, 100, 254, 255)):
+        out.append({"id": f"active/L1900/intruder{at}", "harness": "active", "L": 1900, "fs": 8,
+                    "pad": True, "padding_size": 8, "intruder_at": at})
     for Ls in ([(20, 20), (20, 1, 20), (9, 120, 8)] if tier == "quick" else
                [(20, 20), (20, 1, 20), (9, 120, 8), (8, 8, 8), (4095, 9), (9, 1, 1, 9)]):
         for ps in (0, 8):
